@@ -378,3 +378,55 @@ func ruleShadowCopiesIndependent(c *Ctx) {
 	})
 	c.R.Floor(rule, "conditional copies into the marshal shadow struct", n, 2)
 }
+
+func init() {
+	for _, pid := range []string{"C06", "C03"} {
+		pid := pid
+		Properties[pid].Rules = append(Properties[pid].Rules, Rule{pid + "/references-resolved-independently", func(c *Ctx) { ruleRefsResolvedIndependently(c, pid+"/references-resolved-independently") }})
+	}
+}
+
+// A schema may carry both $ref and $dynamicRef; each is resolved where it is present, whatever the other says.
+// (`else if s.DynamicRef != ""` after the $ref block leaves the $dynamicRef of such a schema unresolved, and the
+// evaluator's assertion that every $dynamicRef was resolved fails at validation time.)
+func ruleRefsResolvedIndependently(c *Ctx, rule string) {
+	n := 0
+	for _, fn := range c.Closure(rule, "RES").Minus(c.Closure(rule, "EV")).Sorted() {
+		if !c.P.InPkg(fn) {
+			continue
+		}
+		core.EachInstr(fn, func(i ssa.Instruction) {
+			call, ok := i.(*ssa.Call)
+			if !ok || call.Call.StaticCallee() == nil || !c.P.InPkg(call.Call.StaticCallee()) {
+				return
+			}
+			which := ""
+			for _, a := range call.Call.Args {
+				if !tString(a.Type()) {
+					continue
+				}
+				for f := range c.schemaFieldsIn(a) {
+					if f == "Schema.Ref" || f == "Schema.DynamicRef" {
+						which = f
+					}
+				}
+			}
+			if which == "" {
+				return
+			}
+			other := "Schema.DynamicRef"
+			if which == other {
+				other = "Schema.Ref"
+			}
+			n++
+			dep := ""
+			for _, g := range guardsLocal(call) {
+				if c.schemaFieldsIn(g.Cond)[other] {
+					dep = c.pos(g.At)
+				}
+			}
+			c.R.Check(dep == "", rule, fmt.Sprintf("%s:%s", core.FuncName(fn), which), c.pos(call), "resolved wherever it is present", "whether "+which+" is resolved depends on "+other+" (test at "+dep+"): in a schema that carries both, one of the two references is never resolved; Resolve succeeds and Validate panics (or silently skips the keyword) when it reaches that schema")
+		})
+	}
+	c.R.Floor(rule, "resolutions of $ref / $dynamicRef", n, 2)
+}
